@@ -22,6 +22,7 @@
 #include "tools.rsc"
 #include "version.h"
 
+#include <limits.h>
 #include <string.h>
 
 /****************************************************************************/
@@ -199,9 +200,9 @@ void WriteRecordHeader(
 }
 
 void SkipRecord(Byte Header, char const* Name, FILE* f) {
-    int      Length;
-    LongWord Addr, RelocCount, ExportCount, StringLen;
-    Word     Len;
+    LargeWord Length;
+    LongWord  Addr, RelocCount, ExportCount, StringLen;
+    Word      Len;
 
     switch (Header) {
     case FileHeaderStartAdr:
@@ -220,7 +221,7 @@ void SkipRecord(Byte Header, char const* Name, FILE* f) {
         if (!Read4(f, &StringLen)) {
             ChkIO(Name);
         }
-        Length = (16 * RelocCount) + (16 * ExportCount) + StringLen;
+        Length = ((LargeWord)16 * RelocCount) + ((LargeWord)16 * ExportCount) + StringLen;
         break;
     default:
         if (!Read4(f, &Addr)) {
@@ -233,7 +234,9 @@ void SkipRecord(Byte Header, char const* Name, FILE* f) {
         break;
     }
 
-    if (fseek(f, Length, SEEK_CUR) != 0) {
+    /* never seek backwards: a length that does not fit is beyond the end of any file */
+
+    if (fseek(f, (Length > LONG_MAX) ? LONG_MAX : (long)Length, SEEK_CUR) != 0) {
         ChkIO(Name);
     }
 }
